@@ -24,6 +24,7 @@ PCfg_3 == << E2E(FALSE, AnyId), E2E(FALSE, AnyId), E2E(TRUE, AnyId) >>
 
 Parent == <<2, 1>>
 Other == <<9, 1>>
+ParentSibling == <<Parent[1], 2>>    \* another port of the parent's clock: its TLVs are not the parent's
 GmP == <<120, 6, 33, 100, 127, 1>>
 GmO == <<128, 248, 254, 65535, 128, 9>>
 TpP == [utc |-> 37, leap |-> 0, tt |-> TRUE, ft |-> TRUE, ptp |-> TRUE, src |-> 32]
@@ -35,6 +36,7 @@ PathOf(k) == CASE k = 1 -> <<1, 2>>                  \* grandmaster 1 relayed by
                [] k = 3 -> [i \in 1..118 |-> IF i = 118 THEN 2 ELSE 10 + i]   \* with the own identity: 119 entries, the largest TLV that fits
                [] k = 4 -> [i \in 1..119 |-> IF i = 119 THEN 2 ELSE 10 + i]   \* with the own identity: 120 entries, does not fit an Announce
                [] k = 5 -> [i \in 1..129 |-> IF i = 129 THEN 2 ELSE 10 + i]   \* longer than the data set can hold (128)
+               [] k = 6 -> [i \in 1..130 |-> IF i = 130 THEN 5 ELSE IF i = 129 THEN 2 ELSE 10 + i]   \* 130 entries, the own identity last (beyond what the data set holds): a clock loop all the same
                [] OTHER -> <<>>
 
 \* room left for forwarded TLVs after the own PATH_TRACE TLV (path as currently held in the data set)
@@ -70,7 +72,7 @@ RunPrefix(s, sc, i) == IF i > Len(sc) THEN s ELSE RunPrefix(Step(s, sc[i]).s, sc
 
 Init == /\ st = RunPrefix(Init0, Prefix, 1)
         /\ env = [aseq |-> 102, oseq |-> 0, tag |-> 1,
-                  recv |-> <<>>,                               \* ghost: tagged TLVs received from the parent while it is the parent, in arrival order
+                  recv |-> <<>>,                               \* ghost: [tlv, snd] of every propagating TLV of an accepted Announce, in arrival order
                   sent |-> [p \in Ports |-> <<>>]]             \* ghost: tags of the forwarded TLVs each port emitted, in order
         /\ res = [out |-> <<>>]
         /\ hist = Prefix
@@ -78,6 +80,7 @@ Init == /\ st = RunPrefix(Init0, Prefix, 1)
 Events ==
   (IF env.tag < 28 THEN {AnnEv(Parent, GmP, env.aseq, k, pk, env.tag) : k \in ListSet, pk \in PathSet} ELSE {})
   \cup (IF WithOther /\ env.tag < 28 THEN {AnnEv(Other, GmO, env.oseq, k, 0, env.tag) : k \in ListSet \cap {1, 3, 6}} ELSE {})
+  \cup (IF WithOther /\ env.tag < 28 THEN {AnnEv(ParentSibling, GmP, env.oseq, k, 0, env.tag) : k \in ListSet \cap {1}} ELSE {})
   \cup {[e |-> "t", k |-> "ann", p |-> p] : p \in Ports}
   \cup {[e |-> "bmca"]}
 
@@ -85,12 +88,13 @@ EmittedTlvs(r) == IF "out" \in DOMAIN r /\ Len(r.out) = 2 /\ r.out[2].a = "G" TH
 Forwarded(tl) == SelectSeq(tl, LAMBDA t : ~("path" \in DOMAIN t))
 EnvStep(ev, r) ==
   IF ev.e = "ann" THEN
-     LET fromParent == ev.src = Parent /\ st.pst[1] = "S" /\ st.ppi = Parent /\ r.out # <<>>
+     LET accepted == r.out # <<>>
          n == Len(ev.tlvs)
      IN [env EXCEPT !.aseq = IF ev.src = Parent THEN (@ + 1) % SeqMod ELSE @,
-                    !.oseq = IF ev.src = Other THEN (@ + 1) % SeqMod ELSE @,
+                    !.oseq = IF ev.src \in {Other, ParentSibling} THEN (@ + 1) % SeqMod ELSE @,
                     !.tag = @ + n,
-                    !.recv = IF fromParent THEN @ \o SelectSeq(ev.tlvs, LAMBDA t : Propagates(t.ty)) ELSE @]
+                    !.recv = IF accepted THEN @ \o [i \in 1..Len(SelectSeq(ev.tlvs, LAMBDA t : Propagates(t.ty))) |->
+                                                      [tlv |-> SelectSeq(ev.tlvs, LAMBDA t : Propagates(t.ty))[i], snd |-> ev.src]] ELSE @]
   ELSE IF ev.e = "t" THEN
      [env EXCEPT !.sent[ev.p] = @ \o [i \in 1..Len(Forwarded(EmittedTlvs(r))) |-> Forwarded(EmittedTlvs(r))[i].tag]]
   ELSE env
@@ -119,13 +123,13 @@ Fits == IsAnn(res) => AnnounceSize + Sum(Ann(res).tlvs, 1) <= MaxDataLen
 \* an announce timer on a master port always produces an Announce
 AlwaysSentOK == LET ev == hist'[Len(hist')] IN (ev.e = "t" /\ ev.k = "ann" /\ st.pst[ev.p] = "M") => IsAnn(res')
 AlwaysSent == [][AlwaysSentOK]_vars
-\* only propagating TLVs received from the current parent are forwarded, unmodified
-RecvTags == {env.recv[i].tag : i \in 1..Len(env.recv)}
+\* only propagating TLVs received from the port that is the parent when the Announce is sent are forwarded, unmodified
+\* (the code decides "from the current parent" when it sends: a TLV heard from a master that became the parent since is sent)
 OnlyParentPropagating ==
   IsAnn(res) => \A i \in 1..Len(Forwarded(Ann(res).tlvs)) :
                   LET t == Forwarded(Ann(res).tlvs)[i] IN
                   /\ Propagates(t.ty)
-                  /\ \E j \in 1..Len(env.recv) : env.recv[j] = t
+                  /\ \E j \in 1..Len(env.recv) : env.recv[j].tlv = t /\ env.recv[j].snd = st.ppi
 \* per port: in arrival order, each at most once (tags are handed out in arrival order, modulo 32)
 Tags(p) == SelectSeq(env.sent[p], LAMBDA t : t # 0)
 OrderOnce == \A p \in Ports : \A i, j \in 1..Len(Tags(p)) : i < j => Tags(p)[i] < Tags(p)[j]
